@@ -675,7 +675,7 @@ func init() {
 	}
 	Checks["C07"] = func(r *evid.Run) {
 		c07stats = NewStats()
-		dl := deadline(r, 55*time.Second, 20*time.Minute)
+		dl := deadline(r, 120*time.Second, 20*time.Minute)
 		exploreChoiceOpts(r, "c07.declared-profile-rules", -1, dl, 1)
 		exploreChoiceOpts(r, "c07.profile-member-identification", -1, dl, 1)
 		exploreChoiceOpts(r, "c07.dispatch", -1, dl, 1)
